@@ -406,14 +406,45 @@ def run(tier, seed):
         C.write_evidence("C14", tier, seed, cov, time.time() - t0, 1)
         C.violation("C14", path, no_input=True)
         return 1
+    # the flattened ordered sequence is ONE sequence also when the ordered calls overlap in time: no terminal clause is used twice
+    # and none is skipped, for any interleaving of the atomic operations of 2-3 threads (controlled scheduler, Layer B model)
+    from ..layer_b import ConcurrentPart, replay_sched
+    def ordered_programs(rng_, tier_):
+        progs = []
+        for _ in range(8 if tier_ == "quick" else 40):
+            n = rng_.randint(2, 4)
+            seq = [rng_.choice([0, 2, 4]) for _ in range(n)]
+            terms = [{"kind": "call", "mid": m, "opener": "next",
+                      "pat": {"matcher": rng_.choice([255, 255, 15]), "dbg": k + 1,
+                              "ops": [("ret", k + 1)] + ([("n", 2)] if m != 4 and rng_.random() < 0.3 else [])}} for k, m in enumerate(seq)]
+            nth = rng_.choice([2, 2, 3])
+            threads = [[(rng_.choice(seq), rng_.choice([0, 1, 5]))] for _ in range(nth)]
+            if nth == 2 and rng_.random() < 0.4:
+                threads[0].append((rng_.choice(seq), 0))
+            progs.append({"partial": False, "terms": terms, "threads": threads, "sched": []})
+        return progs
+    cn, cpayload, ccov = ConcurrentPart("C14", ordered_programs, "correspondence C14 (concurrent part): overlapping ordered calls consume the flattened clause "
+                                        "sequence slot by slot (outcomes and verdict vs the Layer B model, every interleaving)")(rng, tier, seed, [])
+    cov.update(ccov)
+    cov["obligations"] += 1
+    cov["evaluations"] += cn
+    if cpayload is not None:
+        path = C.write_replay("C14", seed, cpayload)
+        C.write_evidence("C14", tier, seed, cov, time.time() - t0, 1)
+        C.violation("C14", path)
+        return 1
+    cov["discharged"] += 1
     C.write_evidence("C14", tier, seed, cov, time.time() - t0, 0,
                      assumptions=["model/implementation agreement is established on the generated trees only"])
-    print(f"C14: {len(obligations)} theorems closed; tuple orders of arity 2..16 re-checked; {len(cases)} co-executions agree ({time.time()-t0:.1f}s)")
+    print(f"C14: {len(obligations)} theorems closed; tuple orders of arity 2..16 re-checked; {len(cases)} co-executions + {cn} scheduled ones agree ({time.time()-t0:.1f}s)")
     return 0
 
 
 def replay(path):
     payload = json.load(open(path))
+    if payload.get("part") == "sched":
+        from ..layer_b import replay_sched
+        return replay_sched("C14", payload, path)
     case = payload.get("case")
     if case is None:
         print("replay file names an obligation, not an input:", payload.get("theorem_or_correspondence"))
